@@ -125,6 +125,9 @@ class BaseParser(xml.sax.ContentHandler):
         else:
             data = ''.join(self._cdata).strip()
             self._cdata = None
+            if self._position is None:
+                # an element without content (<default></default>)
+                self._position = self.get_position()
             getattr(self, "characters_" + name)(data)
 
     def endDocument(self):
